@@ -5,3 +5,4 @@ from . import engines  # noqa: F401
 from . import callbacks  # noqa: F401
 from . import statemachine  # noqa: F401
 from . import events  # noqa: F401
+from . import entry  # noqa: F401
